@@ -101,3 +101,15 @@ fn c09_clock_has_passed_kernel() {
     kani::cover!(now == t, "now == time");
 }
 
+
+/// the harness-side construction of SystemTime values (field by field) agrees with the arithmetic one for every
+/// (secs, nanos): validates the layout assumption all time-dependent harnesses rest on
+#[kani::proof]
+#[kani::unwind(8)]
+fn c09_time_construction_is_faithful() {
+    let s: u64 = kani::any();
+    let n = sup::any_nanos();
+    kani::assume(s <= (1u64 << 41));
+    assert!(sup::time(s, n) == sup::time_arith(s, n), "harness time construction equals UNIX_EPOCH + Duration::new(secs, nanos)");
+    assert!(sup::time(5000, 7) == sup::time_arith(5000, 7), "concrete instance");
+}
